@@ -342,7 +342,7 @@ impl Ctl {
         let (desc, _ord) = self.procs[name].actor.pending.clone().ok_or(format!("{name} has nothing pending"))?;
         let phase = self.procs[name].phase.clone();
         let crash = matches!(d, Directive::Crash);
-        if !crash && desc == "point:wipe.create" && self.procs.values().any(|p| p.attached) {
+        if !crash && desc == "point:wipe.create" && self.procs.values().any(|p| p.attached) && !self.oracle.external_corruption {
             // executing File::create now would truncate the file under an attached reader (SIGBUS on its
             // next access): record it and stop this run instead
             self.oracle.violations.push(("C04".into(), "wipe-under-attached-reader".into(), "ShmWriter::new is about to truncate the segment while a reader is attached".into()));
